@@ -12,6 +12,19 @@ Proof. intros A B r f b H. destruct r as [a| |]; cbn in H; try discriminate. exi
 
 Lemma Ok_inj : forall {A} (a b : A), Ok a = Ok b -> a = b.
 Proof. intros A a b H. injection H as H. exact H. Qed.
+(* what local_eval (Model/Symbols.v) returns for the expressions that have a name: one result per such expression, each
+   satisfying Q *)
+Fixpoint rs_match (Q : exp -> option finfo * pvar -> Prop) (names : list bytes) (locs : list loc) (es : list exp)
+         (rs : list (option finfo * pvar)) {struct es} : Prop :=
+  match es with
+  | [] => rs = []
+  | e :: es' =>
+    match names, locs with
+    | _ :: names', _ :: locs' => exists r rs', rs = r :: rs' /\ Q e r /\ rs_match Q names' locs' es' rs'
+    | _, _ => rs = []
+    end
+  end.
+
 Ltac ok_inj H := apply Ok_inj in H; rewrite <- H.
 
 Ltac inv_bind H :=
@@ -341,25 +354,49 @@ Section Locs.
       apply IH; [exact H2|]. apply add_loc_var_ok; [|exact Hs]. apply vi_ok_intro; cbn; auto. constructor.
     Qed.
 
+    Lemma local_eval_ok : forall es names locs s s1 rs,
+        forallb locs_exp es = true -> st_ok s ->
+        local_eval ce names locs es s = Ok (s1, rs) ->
+        st_ok s1 /\ rs_match (fun _ r => fi_ok (fst r) /\ subs_ok (sub_of (snd r))) names locs es rs.
+    Proof.
+      induction es as [|e es IH]; intros names locs s s1 rs Hes Hs H.
+      - cbn [local_eval] in H. injection H as <- <-. split; [exact Hs|reflexivity].
+      - cbn [forallb] in Hes. apply andb_prop in Hes. destruct Hes as [He Hes].
+        cbn [local_eval] in H. inv_bind H. destruct a as [[s2 ofn] sub].
+        destruct (Hce _ _ _ _ _ _ He Hs pv_ok_empty Hb) as [Hs2 [Hofn Hsub]].
+        destruct names as [|nm names]; [injection H as <- <-; split; [exact Hs2|reflexivity]|].
+        destruct locs as [|l locs]; [injection H as <- <-; split; [exact Hs2|reflexivity]|].
+        inv_bind H. destruct a as [s3 rs0]. injection H as <- <-.
+        destruct (IH _ _ _ _ _ Hes Hs2 Hb0) as [Hs3 Hrs]. split; [exact Hs3|].
+        cbn [rs_match]. exists (ofn, sub), rs0. repeat split; auto.
+    Qed.
+
+    Lemma local_adds_ok : forall es names locs rs s s' rn rl flag,
+        Forall (fun l => P l = true) locs -> st_ok s ->
+        rs_match (fun _ r => fi_ok (fst r) /\ subs_ok (sub_of (snd r))) names locs es rs ->
+        local_adds names locs es rs s = (s', rn, rl, flag) -> st_ok s' /\ Forall (fun l => P l = true) rl.
+    Proof.
+      induction es as [|e es IH]; intros names locs rs s s' rn rl flag Hl Hs Hrs H.
+      - cbn [local_adds] in H. injection H as <- <- <- <-. auto.
+      - cbn [local_adds rs_match] in H, Hrs.
+        destruct names as [|nm names]; [subst rs; injection H as <- <- <- <-; auto|].
+        destruct locs as [|l locs]; [subst rs; injection H as <- <- <- <-; auto|].
+        destruct Hrs as [[ofn sub] [rs' [-> [[Hofn Hsub] Hrs']]]]. cbn [fst snd] in Hofn, Hsub.
+        inversion Hl as [|? ? H1 H2]; subst.
+        destruct (local_adds names locs es rs' _) as [[[s3 rn0] rl0] flag0] eqn:E.
+        injection H as <- <- <- <-.
+        eapply IH; [exact H2| |exact Hrs'|exact E].
+        apply add_loc_var_ok; [|exact Hs]. apply vi_ok_intro; auto.
+        destruct (is_func e); [exact Hofn | exact I].
+    Qed.
+
     Lemma local_loop_ok : forall es names locs s s' rn rl flag,
         Forall (fun l => P l = true) locs -> forallb locs_exp es = true -> st_ok s ->
         local_loop ce names locs es s = Ok (s', rn, rl, flag) -> st_ok s' /\ Forall (fun l => P l = true) rl.
     Proof.
-      induction es as [|e es IH]; intros names locs s s' rn rl flag Hl Hes Hs H.
-      - destruct names; cbn [local_loop] in H; injection H as <- <- <- <-; auto.
-      - cbn [forallb] in Hes. apply andb_prop in Hes. destruct Hes as [He Hes].
-        destruct names as [|nm names]; cbn [local_loop] in H.
-        + inv_bind H. destruct a as [[s1 ofn] sub].
-          destruct (Hce _ _ _ _ _ _ He Hs pv_ok_empty Hb) as [Hs1 [Hofn Hsub]].
-          injection H as <- <- <- <-; auto.
-        + inv_bind H. destruct a as [[s1 ofn] sub].
-          destruct (Hce _ _ _ _ _ _ He Hs pv_ok_empty Hb) as [Hs1 [Hofn Hsub]].
-          destruct locs as [|l locs]; [injection H as <- <- <- <-; auto|].
-          inversion Hl as [|? ? H1 H2]; subst.
-          inv_bind H. destruct a as [[[s3 rn0] rl0] flag0]. injection H as <- <- <- <-.
-          eapply IH; [exact H2 | exact Hes | | exact Hb0].
-          apply add_loc_var_ok; [|exact Hs1]. apply vi_ok_intro; auto.
-          destruct (is_func e); [exact Hofn | exact I].
+      intros es names locs s s' rn rl flag Hl Hes Hs H. unfold local_loop in H. inv_bind H. destruct a as [s1 rs].
+      injection H as H. destruct (local_eval_ok _ _ _ _ _ _ Hes Hs Hb) as [Hs1 Hrs].
+      eapply local_adds_ok; eauto.
     Qed.
 
     Lemma cg_local_ok : forall names locs es s s',
@@ -561,7 +598,7 @@ Section Locs.
           eapply scoped_ok; [|exact Hs|exact H]. intros s0 s1 Hs0 H0. inv_bind H0. inv_bind H0. inv_bind H0.
           eapply Hblk1; [exact Hblk| |exact H0]. apply add_loc_var_ok.
           -- apply vi_ok_intro; cbn; auto. constructor.
-          -- eapply Hnil; [exact He2| |exact Hb1]. eapply Hnil; [exact He3| |exact Hb0]. eapply Hnil; [exact He1|exact Hs0|exact Hb].
+          -- eapply Hnil; [exact He3| |exact Hb1]. eapply Hnil; [exact He2| |exact Hb0]. eapply Hnil; [exact He1|exact Hs0|exact Hb].
         * (* SForIn *)
           apply andb_prop in Hst. destruct Hst as [Hst Hblk]. apply andb_prop in Hst. destruct Hst as [Hls Hes].
           eapply scoped_ok; [|exact Hs|exact H]. intros s0 s1 Hs0 H0. inv_bind H0.
